@@ -70,13 +70,18 @@ def run(tier, replay=None):
         lint_only.add(len(hc))
         hc.append({"mode": "observe", "files": {"main.s": head + '.include "fns.s"\n', "fns.s": tail}, "base": "main.s"})
         meta.append({"spans": [], "gfile": 1, "free": True})
+    # functions with several returns / shared tails (additional returns are rewritten by the function markup)
+    for t in shared_programs(tier, out, part=4) + corpus.SHARED_PROGRAMS + [
+            "main:\n    jal f\n    li a7, 10\n    ecall\nf:\n    beqz a0, L\n    ret\n.data\nL:\n    ret\n"]:
+        hc.append({"mode": "observe", "files": {"main.s": t}, "base": "main.s"})
+        meta.append({"spans": [], "gfile": 1, "free": True})
     if replay:
         w = json.load(open(replay))["witness"]
         hc = [w["case"]]
         meta = [w["meta"]]
     for i, h in enumerate(hc):
         h["id"] = i + 1
-        h["want"] = ["files", "errors", "lints"] if (not replay and i in lint_only) else ["files", "toks", "nodes", "errors", "lints"]
+        h["want"] = ["files", "nodes", "errors", "lints", "cfg"] if (not replay and i in lint_only) else ["files", "toks", "nodes", "errors", "lints", "cfg"]
     tp, evs = run_harness(rvh, hc, wd, "pos")
     for e, m in zip(evs, meta):
         e["case"] = m
@@ -84,6 +89,10 @@ def run(tier, replay=None):
         e.setdefault("cfgerr", {})
         e.setdefault("cfgok", False)
     for e in evs:
+        # places of the graph nodes (the facts are not needed here)
+        e["gnodes"] = [{"k": n["node"]["k"], "file": n["node"]["file"], "r0": n["node"]["r0"], "r1": n["node"]["r1"]}
+                       for n in e.get("cfg", {}).get("nodes", [])]
+        e.pop("cfg", None)
         e.setdefault("toks", [])
         e.setdefault("nodes", [])
         e.setdefault("errors", [])
